@@ -4,6 +4,7 @@ import Hive.Proofs.SyncMutexWait
 import Hive.Gen.C17_Skel
 import Hive.Proofs.SyncMutexExec
 import Hive.Proofs.SyncMutexComp7
+import Hive.Proofs.SyncMutexWaitV
 /-!
 # C17 — Starving/DAG mutexes: exclusion, no lost wake-up, condition waits
 
@@ -175,6 +176,64 @@ theorem C17_monitor_refines_rwlock (s : Mx) (v : V) (s' : Mx) (v' : V) (h : (s',
     (try (first | (obtain ⟨rfl, rfl⟩ := h) | (obtain ⟨hg, rfl, rfl⟩ := h)
           simp_all <;> omega))
 
+/-- **A misuse panic freezes the mutex instead of corrupting it** (arbitrary scripts, any number of goroutines): the
+panicking `Unlock`/`RUnlock` leaves the internal mutex locked (no `defer`), so from a configuration in which some
+goroutine has panicked no transition changes the lock state any more — nothing is granted, nothing is released; the
+holders of that moment stay the holders.  (The harness checks the same on the real object after every recovered
+panic: the counters are the ones before the call and the internal mutex is locked; a mutex that stays usable is probed
+for a grant alongside the known holders.) -/
+theorem C17_panic_freezes_lock_state {scripts : List (List Op)} {c c' : Cfg Mx Th}
+    (hr : Reach sys (initCfg scripts) c) (hd : ∃ t ∈ c.2, t.v.pc = .dead) (hs : Step sys c c') :
+    c.1.m = true ∧ c'.1.m = true ∧ c'.1.writer = c.1.writer ∧ c'.1.readers = c.1.readers := by
+  have g := ginvC_reach hr
+  obtain ⟨d, hdm, hdp⟩ := hd
+  cases hs with
+  | mk s pre t post s' t' hmem =>
+    have hm := g.hm
+    simp only [views_mid, sumV_mid] at hm
+    -- the dead goroutine is not the one that moves
+    have hne : t.v.pc ≠ .dead := by
+      intro h
+      obtain ⟨⟨pc, rd, wr⟩, script⟩ := t
+      simp only at h; subst h
+      simp [sys, smStepG, mxStepG] at hmem
+    have hfd : fM d.v = 1 := by simp [fM, hdp]
+    have hother : 1 ≤ sumV fM (views pre) + sumV fM (views post) := by
+      simp only [List.mem_append, List.mem_cons] at hdm
+      rcases hdm with h | rfl | h
+      · have := sumV_ge (f := fM) (vs := views pre) (v := d.v) (by simp only [views, List.mem_map]; exact ⟨d, h, rfl⟩)
+        omega
+      · exact absurd hdp hne
+      · have := sumV_ge (f := fM) (vs := views post) (v := d.v) (by simp only [views, List.mem_map]; exact ⟨d, h, rfl⟩)
+        omega
+    have hmt : s.m = true := by
+      cases hsm : s.m with
+      | true => rfl
+      | false => simp [hsm] at hm; omega
+    have hft : fM t.v = 0 := by simp [hmt] at hm; omega
+    rcases smStep_cases hmem with ⟨op, rest, _, _, rfl, _⟩ | ⟨_, hstep, _⟩
+    · exact ⟨hmt, hmt, rfl, rfl⟩
+    · have href := C17_monitor_refines_rwlock s t.v s' t'.v hstep
+      have hm' : s'.m = true := by
+        obtain ⟨⟨pc, rd, wr⟩, script⟩ := t
+        obtain ⟨m, readers, writer, pending, waitR, wakeR, waitW, wakeW⟩ := s
+        simp only at hmt hft hstep; subst hmt
+        cases pc <;> simp [fM] at hft <;>
+          simp [mxStepG, signalW, broadcastR] at hstep <;>
+          (try (split at hstep)) <;> (try simp at hstep) <;>
+          (try (first | (obtain ⟨rfl, _⟩ := hstep; simp) | (obtain ⟨_, rfl, _⟩ := hstep; simp)))
+      refine ⟨hmt, hm', ?_⟩
+      rcases href with h | ⟨h, _⟩ | ⟨h, _⟩ | ⟨h, _⟩ | ⟨h, _⟩
+      · exact h
+      all_goals (simp [fM, h] at hft)
+
+/-- Non-vacuity: `Unlock` of the unlocked mutex by goroutine 0 panics; goroutine 1 (about to call `Lock`) can still take
+a step — into the call, where it then waits for the internal mutex for ever. -/
+example :
+    let c := Conc.runSched sys (initCfg [[.unlock], [.lock]]) [(0, 0), (0, 0), (0, 0)]
+    c.2.map (·.v.pc) = [.dead, .idle] ∧ c.1.m = true ∧ (smStepG true c.1 ⟨V.init, [.lock]⟩).length = 1 := by
+  decide
+
 /-- The code before the repair: `Unlock` on a fresh mutex ran through (and broadcast) instead of
 panicking.  Replayed on the implementation by the `seq` requests of the harness. -/
 theorem C17_unlock_unheld_old_witness :
@@ -340,6 +399,19 @@ theorem C17_dag_composed_no_panic {scripts : List (List Dag.DOp)} (hwb : Dag.WBD
     have := (h.obj t.cur).loc (proj t.cur t) (List.mem_map.mpr ⟨t, ht, rfl⟩)
     simp [proj, vinv, hd] at this
 
+/-- **Known finding, exhibited on the model of the code as it is** (`known_findings/C17.json`, trigger
+`earlier-ids-unregistered`): `RLock(1); RUnlock(1, 2)` panics at entity 2 ("called … too often") *after* entity 1 has
+been unregistered — its consumer count is 0 and it has no mutex any more, although the StarvingMutex object it had is
+still read-locked and the goroutine still records the hold; a `Lock(1)` by another goroutine then creates a fresh
+mutex and is granted alongside that read hold.  (A witness by evaluation of one schedule, not a general claim; the
+harness replays the same calls on the real DAGMutex: `seq dagc rlock:1 runlock:1,2 lock:1`.) -/
+theorem C17_dag_misuse_panic_registry_witness :
+    let c := Conc.runSched Comp.sys (Comp.initCfg [[.rlock [1], .runlock [1, 2]], [.lock 1]])
+      (List.replicate 9 (0, 0) ++ List.replicate 7 (1, 0))
+    c.2.map (fun t => (t.ctl, t.held)) = [(.dead, [(1, .r)]), (.idle, [(1, .w)])] ∧
+      (c.1.heap 0).readers = 1 ∧ (c.1.heap 1).writer = true ∧ c.1.ent 1 = some 1 ∧ c.1.cnt 1 = 1 ∧ c.1.dm = false := by
+  decide
+
 /-- Non-vacuity: goroutine 0 holds entity 1 for writing and is parked in `RLock` of entity 2, which
 goroutine 1 holds for writing; goroutine 2 is parked in `Lock(1)`. -/
 example :
@@ -423,6 +495,84 @@ theorem C17_wait_iff_quiescent {v : Int} {scripts : List (List WOp)} {c : Cfg Mo
     ∀ t ∈ c.2, t.done ∨ ∃ op g, (t.pc = .parkI op g ∨ t.pc = .parkD op g) ∧ mustWait op c.1.value :=
   Wait.stuck_waiters (s := c.1) (ts := c.2) (Wait.inv_reach hr) hst
 
+/-! ## Counter / Stack with their data (`Hive/Model/SyncMutexWaitV.lean`)
+
+The model the driver runs for the `wm` cases: the wait monitor's transition function with the stack contents, the
+return values of `Set`/`Update` and the subscriber notifications attached. -/
+
+open WaitV in
+/-- **The data model refines the wait monitor**: forgetting the data maps every run to a run of `Wait.sys`, and
+stuck configurations to stuck configurations — so `C17_wait_iff_*` hold for it. -/
+theorem C17_waitv_refines_wait {c0 c : Cfg MonV WThV} (hr : Reach WaitV.sys c0 c) :
+    Reach Wait.sys (proj c0) (proj c) ∧ (Stuck WaitV.sys c → Stuck Wait.sys (proj c)) :=
+  ⟨reach_proj hr, stuck_proj⟩
+
+open WaitV in
+/-- `C17_wait_iff_quiescent` for the data model (Stack flavour; the Counter flavour is the same with `initCounter`):
+at quiescence every goroutine has finished or is parked with its condition unmet. -/
+theorem C17_waitv_quiescent {n : Nat} {scripts : List (List Wait.WOp)} {c : Cfg MonV WThV}
+    (hr : Reach WaitV.sys (initStack n scripts) c) (hst : Stuck WaitV.sys c) :
+    ∀ t ∈ c.2, t.base.done ∨
+      ∃ op g, (t.base.pc = .parkI op g ∨ t.base.pc = .parkD op g) ∧ Wait.mustWait op c.1.base.value := by
+  intro t ht
+  have hr' : Reach Wait.sys (Wait.initCfg n scripts) (proj c) := by
+    have := reach_proj hr
+    simpa [proj, initStack, MonV.initStack, Wait.initCfg, WThV.new, List.map_map, Function.comp_def] using this
+  exact C17_wait_iff_quiescent hr' (stuck_proj hst) t.base (List.mem_map.mpr ⟨t, ht, rfl⟩)
+
+open WaitV in
+/-- **The Stack hands its elements out exactly once and in push order** (any number of goroutines calling
+`Push`/`Pop`/`PopOrWait`/`WaitSizeIs…`/`SignalShutdown` in any order, all schedules): the elements pushed so far
+(`0 … pushed-1`, identified by their push sequence number) are exactly the elements taken so far, in the order they
+were taken, followed by the current contents front to back; the size the waits look at is the length of the contents;
+what a goroutine received is a subsequence of what was taken. -/
+theorem C17_stack_fifo_conservation {n : Nat} {scripts : List (List Wait.WOp)}
+    (hs : ∀ sc ∈ scripts, ∀ op ∈ sc, stackOp op) {c : Cfg MonV WThV}
+    (hr : Reach WaitV.sys (initStack n scripts) c) :
+    List.range c.1.pushed = c.1.popped ++ c.1.q ∧ c.1.base.value = c.1.q.length ∧
+      ∀ t ∈ c.2, t.vals.reverse.Sublist c.1.popped := by
+  have h := sinv_reach n hs hr
+  exact ⟨h.fifo, h.len, h.sub⟩
+
+/-- Stack scripts exist and use every method. -/
+example : ∀ sc ∈ [[Wait.WOp.add 1, .tryPop, .popOrWait], [.waitBelow 1, .waitAbove 0, .shutdown]], ∀ op ∈ sc, WaitV.stackOp op := by
+  decide
+
+open WaitV in
+/-- **Subscribers see every change of the Counter exactly once, in order** (arbitrary scripts): the notifications
+`(old, new)` delivered so far form a chain from the initial value to the current value, each with `old ≠ new`. -/
+theorem C17_counter_notifications_chain {v : Int} {scripts : List (List Wait.WOp)} {c : Cfg MonV WThV}
+    (hr : Reach WaitV.sys (initCounter v scripts) c) : Chain v c.1.log c.1.base.value :=
+  chain_reach (v0 := v) (by simp [initCounter, MonV.initCounter, Chain, Wait.Mon.init]) hr
+
+open WaitV in
+/-- **Return values**: `Set(v)` returns the value it replaced, `Update(d)` the value it installed, and `Pop`/`PopOrWait`
+return the front element of a non-empty stack. -/
+theorem C17_counter_stack_return_values (s : MonV) (t : WThV) (s' : MonV) (t' : WThV) (h : (s', t') ∈ WaitV.step s t) :
+    (∀ v, t.base.pc = .crit (.set v) → t'.rets = s.base.value :: t.rets ∧ s'.base.value = v) ∧
+    (∀ d, t.base.pc = .crit (.add d) → t'.rets = (s.base.value + d) :: t.rets ∧ s'.base.value = s.base.value + d) ∧
+    (∀ x r, (t.base.pc = .crit .tryPop ∨ t.base.pc = .crit .popOrWait) → s.q = x :: r → 0 < s.base.value →
+      t'.vals = x :: t.vals ∧ s'.q = r) := by
+  simp only [WaitV.step, List.mem_map] at h
+  obtain ⟨p, hp, he⟩ := h
+  have h1 : (dataStep s t p).1 = s' := by rw [he]
+  have h2 : (dataStep s t p).2 = t' := by rw [he]
+  subst h1 h2
+  refine ⟨?_, ?_, ?_⟩
+  · intro v hpc
+    simp only [Wait.step, hpc, Wait.critStep, List.mem_singleton] at hp
+    subst hp
+    simp [dataStep, hpc]
+  · intro d hpc
+    simp only [Wait.step, hpc, Wait.critStep, List.mem_singleton] at hp
+    subst hp
+    simp [dataStep, hpc]
+  · intro x r hpc hq hv
+    have hv' : ¬ s.base.value ≤ 0 := by omega
+    rcases hpc with hpc | hpc <;>
+      simp only [Wait.step, hpc, Wait.critStep, hv, hv', if_true, if_false, List.mem_singleton] at hp <;>
+      subst hp <;> simp [dataStep, hpc, hq]
+
 /-! ## The executable oracle of the tie
 
 The driver answers `ok` for an observed quiescent state iff it is among the configurations computed by
@@ -431,7 +581,7 @@ The driver answers `ok` for an observed quiescent state iff it is among the conf
 /-- Everything the driver accepts as an admissible quiescent outcome (of any of the three protocol models,
 `S` = `sys`, `Dag.sys`, `Wait.sys`) is a configuration reachable in that model from one of the start
 configurations, in which no goroutine can move. -/
-theorem C17_driver_outcomes_reachable {σ τ κ : Type} (S : Sys σ τ) (key : Cfg σ τ → κ) [BEq κ]
+theorem C17_driver_outcomes_reachable {σ τ κ : Type} (S : Sys σ τ) (key : Cfg σ τ → κ) [BEq κ] [Hashable κ]
     (starts : List (Cfg σ τ)) (c : Cfg σ τ) (h : c ∈ (Exec.quiescentFrom S key starts).1) :
     (∃ c0 ∈ starts, Reach S c0 c) ∧ Stuck S c :=
   Exec.quiescentFrom_sound S key starts c h
